@@ -477,6 +477,59 @@ def giveup_worker(job):
     return st
 
 
+LONG_PATTERNS = [
+    # (posix-extended, emacs/grep (escaped groups; None = same text as extended), python): ordinary greedy patterns, no nested
+    # ambiguous repetition - linear work for a backtracking engine
+    (".*a/x", None, r".*a/x"), (".*/x", None, r".*/x"), (".*", None, r".*"), ("\\./(a*/)*x", "\\./\\(a*/\\)*x", r"\./(a*/)*x"),
+    ("[./a]*x", None, r"[./a]*x"), (".*a/x.*", None, r".*a/x.*"), ("\\./a.*[^/]", None, r"\./a.*[^/]"),
+]
+
+
+def long_path_worker(job):
+    """Paths of several hundred to several thousand bytes against ordinary patterns: the answer is a matter of the language, not
+    of how long the path is (an engine that gives up here has not answered)."""
+    k, seed = job
+    st = Stats()
+    rng = common.rng_for(seed, "C17long", k)
+    base = common.mkscratch("C17l%d" % k)
+    try:
+        lines, meta = [], {}
+        for i, (ext, esc, pyp) in enumerate(LONG_PATTERNS):
+            for syntax in ("posix-extended", "emacs", "grep", "posix-basic"):
+                pat = ext if syntax == "posix-extended" or esc is None else esc
+                if syntax == "posix-basic" and esc is None and "(" in ext:
+                    continue
+                paths = []
+                for _ in range(5):
+                    n_ = rng.choice([200, 300, 600, 1100, 2000, 3500])
+                    body = "".join(rng.choice(["a/", "a/", "aa/", "a.a/"]) for _ in range(n_ // 2))
+                    paths += ["./" + body + "x", "./" + body + "y", "./" + body + "a/x", "./" + body[:-1]]
+                args = ["-regextype", syntax, rng.choice(["-regex", "-regex", "-iregex"]), pat]
+                cid = "L%d_%d_%s" % (k, i, syntax)
+                meta[cid] = (pyp, args, paths)
+                lines.append("\t".join([cid, "P", "1", str(len(args))] + [common.hx(a) for a in args] + [common.hx(p_) for p_ in paths]))
+        res = common.run_vh("match", lines, base, cwd=base, per_case_timeout=300)
+        for cid, (pyp, args, paths) in meta.items():
+            r = res.get(cid)
+            rp = {"args": args, "path_lengths": [len(p_) for p_ in paths]}
+            if r is None or r[0] != "ok" or "P" in r[2]:
+                st.violate("hang-or-crash", None, {"args": args, "result": r and r[:2]}, rp)
+                continue
+            py = re.compile(pyp, re.S | (re.I if "-iregex" in args else 0))
+            for p_, b in zip(paths, r[2]):
+                want = py.fullmatch(p_) is not None
+                st.inc("evaluations")
+                st.inc("long_path_evaluations")
+                st.inc("long_path_members" if want else "long_path_non_members")
+                if b == "E" or (b == "1") != want:
+                    st.violate("regex-mismatch", None, {"args": args, "path_length": len(p_), "path_head": p_[:60], "path_tail": p_[-20:],
+                                                        "python_fullmatch": want, "find": {"1": True, "0": False}.get(b, "engine gave up"),
+                                                        "shape": "long-path"}, rp)
+    finally:
+        common.force_rmtree(base)
+    return st
+
+
 def binary_worker(job):
     """The same oracle through the real binary on a real tree: paths come from the walk, selection from -print0."""
     import os
@@ -605,6 +658,8 @@ def run(ctx):
     ng = 4 if ctx.tier == "quick" else 16
     ctx.pmap(giveup_worker, [(k, ctx.seed) for k in range(ng)])
     ctx.require("giveup_sequences", 4)
+    ctx.pmap(long_path_worker, [(k, ctx.seed) for k in range(4 if ctx.tier == "quick" else 16)])
+    ctx.require("long_path_members", 20)
     ctx.require("members_after_a_give_up", 4)
     nb = ctx.scale(960, 16000)
     ctx.pmap(binary_worker, [(k, nb // nw, ctx.seed) for k in range(nw)])
